@@ -13,8 +13,9 @@ import traceback
 
 ROOT = os.path.dirname(os.path.dirname(os.path.abspath(__file__)))
 REPO = os.environ.get("PHYCLONE_REPO", "/repo")
-EVIDENCE_DIR = os.path.join(ROOT, "evidence")
-REPLAY_DIR = os.path.join(ROOT, "replay", "out")
+# the two output directories can be redirected (tools/seed_matrix_par.sh runs seeded changes in scratch worktrees and must not touch the real evidence)
+EVIDENCE_DIR = os.environ.get("VERIF_EVIDENCE_DIR") or os.path.join(ROOT, "evidence")
+REPLAY_DIR = os.environ.get("VERIF_REPLAY_DIR") or os.path.join(ROOT, "replay", "out")
 
 DISCHARGED, REFUTED, UNDECIDED, ERROR = "discharged", "refuted", "undecided", "engine-error"
 
@@ -243,6 +244,50 @@ def _dump_state(ctx, path, complete):
     os.replace(tmp, path)
 
 
+def engine_selftest(ctx):
+    """Differential test of the interpreter against CPython (tools/engine_selftest.py): run once per state of the engine sources and cached in the
+    build directory; a disagreement makes every check an engine error (exit 3) - nothing a defective engine says is believed, and it is never a violation."""
+    import glob
+    import hashlib
+
+    try:
+        h = hashlib.sha256()
+        files = sorted(glob.glob(os.path.join(ROOT, "pyvc", "*.py")) + glob.glob(os.path.join(ROOT, "pyvc", "selftest", "phyclone_st", "*.py")) + [os.path.join(ROOT, "tools", "engine_selftest.py")])
+        for f in files:
+            with open(f, "rb") as fh:
+                h.update(fh.read())
+        key = h.hexdigest()
+        cache = os.path.join(ROOT, ".venv", "engine_selftest.json")
+        rep = None
+        if os.path.exists(cache):
+            try:
+                with open(cache) as fh:
+                    c = json.load(fh)
+                if c.get("key") == key:
+                    rep = c["report"]
+            except Exception:  # noqa
+                rep = None
+        if rep is None:
+            sys.path.insert(0, os.path.join(ROOT, "tools"))
+            import engine_selftest as ES
+
+            rep = ES.run()
+            try:
+                tmp = cache + ".%d.tmp" % os.getpid()
+                with open(tmp, "w") as fh:
+                    json.dump({"key": key, "report": rep}, fh, default=str)
+                os.replace(tmp, cache)
+            except OSError:
+                pass
+        ctx.extra["engine_selftest"] = {k: rep[k] for k in ("functions", "box", "concrete_runs", "symbolic_functions", "symbolic_paths", "symbolic_points", "undetermined_values") if k in rep}
+        ctx.extra["engine_selftest"]["not_processed_by_the_engine"] = sorted(set(rep.get("unsupported", {})) | set(rep.get("unsupported_symbolic", {})))
+        ctx.extra["engine_selftest"]["disagreements"] = len(rep.get("disagreements", []))
+        for d in rep.get("disagreements", [])[:3]:
+            ctx.engine_error("engine self-test: the interpreter disagrees with CPython on %s%s (%s mode): CPython %s, engine %s" % (d.get("function"), tuple(d.get("args", ())), d.get("mode"), str(d.get("native"))[:120], str(d.get("engine"))[:120]))
+    except Exception as e:  # noqa
+        ctx.engine_error("engine self-test could not run: %r" % (e,))
+
+
 def run_check(prop, tier, seed, fn):
     """The check body runs in a child process that checkpoints its findings: a native crash in the code under test (numba code is
     not bounds-checked, rustworkx is native) must not lose the obligations already decided, and is reported as an engine error,
@@ -253,6 +298,7 @@ def run_check(prop, tier, seed, fn):
         ctx.level = lvl  # the evidence reports the level claimed in MANIFEST.json (a check may only lower it)
     if os.environ.get("VCHECK_NO_FORK") == "1":
         try:
+            engine_selftest(ctx)
             fn(ctx)
         except Exception as e:  # a crash of the machinery is never a violation
             traceback.print_exc()
@@ -267,6 +313,7 @@ def run_check(prop, tier, seed, fn):
         try:
             ctx.state_path = state_path
             try:
+                engine_selftest(ctx)
                 fn(ctx)
             except Exception as e:  # a crash of the machinery is never a violation
                 traceback.print_exc()
